@@ -292,8 +292,12 @@ public:
 				setblock(i + j, static_cast<bt>(segment));
 				segment >>= bitsInBlock;
 			}
+			// the carry out of row i belongs in limb i + rl, not in the first column of the next row
+			if (segment != 0) {
+				setblock(i + rl, static_cast<bt>(segment));
+				segment = 0;
+			}
 		}
-		if (segment != 0) setblock(ll + rl - 1, static_cast<bt>(segment));
 		setsign(ls ^ rs);
 		return *this;
 	}
